@@ -28,6 +28,8 @@ func runC18(c *Ctx) {
 	readerNextFrameRules(c, "C18")
 	c02Streams(c)
 	c12Cbuf(c)
+	// a reset scrubs the object, not what the caller attached to it
+	callerSliceRules(c, "C18")
 }
 
 func fieldNames(st *types.Struct) []string {
